@@ -262,16 +262,42 @@ func c15Bulk(c *core.Ctx) {
 		c.Ob("C15-R3", fd.Name()+"#loop", fd.Decl.Pos(), false, "no request loop found")
 		return
 	}
-	// worker: go statement inside the loop calling processRequest
+	// worker: the go statement inside the loop whose function sends a response;
+	// the processing call is the (possibly wrapped) call that receives the request
 	var worker *ast.GoStmt
 	var procCall *ast.CallExpr
+	isReqCall := func(cl *ast.CallExpr) bool {
+		fn := core.Callee(info, cl)
+		if fn == nil || !core.InModule(fn.Pkg()) {
+			return false
+		}
+		sg := fn.Type().(*types.Signature)
+		for i := 0; i < sg.Params().Len(); i++ {
+			if ts := core.TypeString(sg.Params().At(i).Type()); ts == "cli.BulkRequest" || ts == "internal/cli.BulkRequest" {
+				return true
+			}
+		}
+		return false
+	}
 	ast.Inspect(loop.Body, func(n ast.Node) bool {
 		if g, ok := n.(*ast.GoStmt); ok {
-			ast.Inspect(g, func(m ast.Node) bool {
-				if cl, ok := m.(*ast.CallExpr); ok {
-					if fn := core.Callee(info, cl); fn != nil && fn.Name() == "processRequest" {
-						worker, procCall = g, cl
-					}
+			fl, isLit := g.Call.Fun.(*ast.FuncLit)
+			if !isLit {
+				return true
+			}
+			sends := false
+			ast.Inspect(fl.Body, func(m ast.Node) bool {
+				if _, ok := m.(*ast.SendStmt); ok {
+					sends = true
+				}
+				return true
+			})
+			if !sends {
+				return true
+			}
+			ast.Inspect(fl.Body, func(m ast.Node) bool {
+				if cl, ok := m.(*ast.CallExpr); ok && procCall == nil && isReqCall(cl) {
+					worker, procCall = g, cl
 				}
 				return true
 			})
@@ -279,7 +305,7 @@ func c15Bulk(c *core.Ctx) {
 		return true
 	})
 	if worker == nil {
-		c.Ob("C15-R3", fd.Name()+"#worker", loop.Pos(), false, "no per-request goroutine calling processRequest found in the loop")
+		c.Ob("C15-R3", fd.Name()+"#worker", loop.Pos(), false, "no per-request goroutine that processes a request and sends its response found in the loop")
 		return
 	}
 	psig := core.Callee(info, procCall).Type().(*types.Signature)
@@ -362,6 +388,26 @@ func c15Bulk(c *core.Ctx) {
 			return true
 		})
 		ok := sendPos != token.NoPos && donePos != token.NoPos && (deferred || sendPos < donePos)
+		// a callee evaluated for the value being sent must not release the wait group itself
+		early := ""
+		ast.Inspect(fl.Body, func(n ast.Node) bool {
+			if snd, isS := n.(*ast.SendStmt); isS {
+				ast.Inspect(snd.Value, func(m ast.Node) bool {
+					if cl, isC := m.(*ast.CallExpr); isC {
+						if fn := core.Callee(info, cl); fn != nil && core.InModule(fn.Pkg()) && callsWGDone(p, fn, 0, map[*types.Func]bool{}) {
+							early = core.FuncName(fn)
+						}
+					}
+					return true
+				})
+			}
+			return true
+		})
+		if early != "" {
+			c.Ob("C15-R3", fd.Name()+"#done-inside-sent-value", worker.Pos(), false,
+				"wg.Done is executed inside "+early+", which is evaluated before the response is sent: the final marker can be sent, and the channel closed, while this response is still unsent")
+			ok, deferred = true, true // reported above; the remaining checks concern the literal itself
+		}
 		lastIsDone := deferred
 		if !deferred && len(fl.Body.List) > 0 {
 			if es, ok := fl.Body.List[len(fl.Body.List)-1].(*ast.ExprStmt); ok {
@@ -456,6 +502,38 @@ func c15Bulk(c *core.Ctx) {
 	if pfd == nil {
 		c.Ob("C15-R3", "UNRESOLVED:processRequest", token.NoPos, false, "no body")
 		return
+	}
+	// a wrapper that hands the request on to another function of the package: follow it
+	for depth := 0; depth < 3; depth++ {
+		allocs := false
+		var inner *ast.CallExpr
+		wi := pfd.Pkg.TypesInfo
+		ast.Inspect(pfd.Decl.Body, func(n ast.Node) bool {
+			switch x := n.(type) {
+			case *ast.CompositeLit:
+				if strings.HasSuffix(core.TypeString(wi.TypeOf(x)), "BulkResponse") {
+					allocs = true
+				}
+			case *ast.CallExpr:
+				if fn := core.Callee(wi, x); fn != nil && fn.Pkg() == pfd.Obj.Pkg() && inner == nil {
+					sg := fn.Type().(*types.Signature)
+					for i := 0; i < sg.Params().Len(); i++ {
+						if strings.HasSuffix(core.TypeString(sg.Params().At(i).Type()), "BulkRequest") {
+							inner = x
+						}
+					}
+				}
+			}
+			return true
+		})
+		if allocs || inner == nil {
+			break
+		}
+		nfd := p.DeclOf(core.Callee(wi, inner))
+		if nfd == nil {
+			break
+		}
+		pfd = nfd
 	}
 	pinfo := pfd.Pkg.TypesInfo
 	var resVar *types.Var
@@ -597,4 +675,32 @@ func aliasesBuffer(info *types.Info, e ast.Expr) string {
 		}
 	}
 	return ""
+}
+
+// callsWGDone: the function, or a module function it calls (depth 3), calls
+// sync.WaitGroup.Done (directly or deferred).
+func callsWGDone(p *core.Program, fn *types.Func, depth int, seen map[*types.Func]bool) bool {
+	if depth > 3 || seen[fn] {
+		return false
+	}
+	seen[fn] = true
+	fd := p.DeclOf(fn)
+	if fd == nil {
+		return false
+	}
+	info := fd.Pkg.TypesInfo
+	res := false
+	ast.Inspect(fd.Decl.Body, func(n ast.Node) bool {
+		if cl, ok := n.(*ast.CallExpr); ok && !res {
+			if f := core.Callee(info, cl); f != nil {
+				if core.IsFunc(f, "sync", "WaitGroup", "Done") {
+					res = true
+				} else if core.InModule(f.Pkg()) && callsWGDone(p, f, depth+1, seen) {
+					res = true
+				}
+			}
+		}
+		return true
+	})
+	return res
 }
